@@ -19,11 +19,13 @@ Bytes(ps) == Concat([ i \in 1 .. Len(ps) |-> ps[i].b ])
 
 \* Write Tag A[1] := 5, 6 inside an Unconnected Send with route path 1/0, inside SendRRData
 WriteMsg == << P("msg.svc", <<77>>), P("msg.pathsz", <<3>>), P("msg.sym", <<145, 1, 65, 0>>), P("msg.elem", <<40, 1>>), P("msg.type", U16(195)),
-               P("msg.count", U16(2)), P("msg.data", <<5, 0, 6, 0>>) >>
+               P("msg.count", U16(2)), P("msg.d1", <<5, 0>>), P("msg.d2", <<6, 0>>) >>
 ReadMsg  == << P("msg.svc", <<76>>), P("msg.pathsz", <<2>>), P("msg.sym", <<145, 1, 65, 0>>), P("msg.count", U16(3)) >>
-BundleMsg == LET m1 == Bytes(WriteMsg)  m2 == Bytes(ReadMsg) IN
+\* a bundle of two members, the first given by its octets (offset table consistent with them), the second the read
+BundleOf(m1) == LET m2 == Bytes(ReadMsg) IN
              << P("msp.svc", <<10>>), P("msp.pathsz", <<2>>), P("msp.path", <<32, 2, 36, 1>>), P("msp.count", U16(2)),
                 P("msp.off1", U16(6)), P("msp.off2", U16(6 + Len(m1))), P("msp.m1", m1), P("msp.m2", m2) >>
+BundleMsg == BundleOf(Bytes(WriteMsg))
 UCWrap(msg) == << P("us.svc", <<82>>), P("us.pathsz", <<2>>), P("us.path", <<32, 6, 36, 1>>), P("us.prio", <<5>>), P("us.ticks", <<157>>),
                   P("us.msglen", U16(PLen(msg))) >> \o msg \o (IF PLen(msg) % 2 = 1 THEN << P("us.pad", <<0>>) >> ELSE <<>>)
                \o << P("rp.size", <<1>>), P("rp.rsvd", <<0>>), P("rp.seg", <<1, 0>>) >>
@@ -62,11 +64,20 @@ Mutated(ps, i, op) ==
 
 Reframed(bn, i, op) == LET m == << P("msg.mutated", Mutated(Inner[bn], i, op)) >> IN
                        Bytes(IF bn \in {"write", "bundle"} THEN RR(UCWrap(m)) ELSE RR(m))
-Plans == { [base |-> bn, part |-> i, op |-> op, kind |-> kd] : bn \in BaseNames, op \in Ops, i \in 1 .. 40, kd \in {"frame", "inner"} }
-Octets(p) == IF p.kind = "frame" THEN Mutated(Bases[p.base], p.part, p.op) ELSE Reframed(p.base, p.part, p.op)
+\* "member" plans: the hostile part is ONE MEMBER of a bundle -- the write, mutated on its own -- inside a bundle whose offset table and
+\* every enclosing length field are consistent with it
+Membered(i, op) == Bytes(RR(UCWrap(BundleOf(Mutated(WriteMsg, i, op)))))
+Plans == { [base |-> bn, part |-> i, op |-> op, kind |-> kd] : bn \in BaseNames, op \in Ops, i \in 1 .. 40, kd \in {"frame", "inner", "member"} }
+Octets(p) == IF p.kind = "frame" THEN Mutated(Bases[p.base], p.part, p.op) ELSE IF p.kind = "inner" THEN Reframed(p.base, p.part, p.op)
+             ELSE Membered(p.part, p.op)
 GoodPlans == { p \in Plans : /\ (p.kind = "frame" => p.part <= Len(Bases[p.base]))
                              /\ (p.kind = "inner" => p.base \in InnerNames /\ p.part <= Len(Inner[p.base]))
+                             /\ (p.kind = "member" => p.base = "bundle" /\ p.part <= Len(WriteMsg))
                              /\ Octets(p) # Bytes(Bases[p.base]) }
+\* a member write that was cut inside a field or an element, or before its first data element, is not a write request at all (whatever
+\* complete elements precede the cut): the bundle's other member is a read, so NOTHING may change -- however the bundle is answered.
+\* (A cut after a whole element leaves a Write Tag with fewer values than it declares: LogixOps lets that be carried out.)
+NoWriteAtAll(p) == p.kind = "member" /\ (p.op = "cutinside" \/ (p.op = "cutafter" /\ WriteMsg[p.part].n \notin {"msg.d1", "msg.d2"}))
 \* does the mutated stream still contain the complete, untouched CIP write message of its base frame?
 Contains(big, small) == \E off \in 0 .. (Len(big) - Len(small)) : SubSeq(big, off + 1, off + Len(small)) = small
 WriteIntact(p) == \/ p.base \in {"write", "bundle"} /\ Contains(Octets(p), Bytes(WriteMsg))
@@ -77,9 +88,10 @@ WReq(p) == IF p.base = "sas"
            ELSE [svc |-> "write", tag |-> 1, mode |-> "sym", idx |-> 1, n |-> 2, off |-> 0, typ |-> "INT", vals |-> << <<5, 0>>, <<6, 0>> >>, bytes |-> <<>>, ms |-> <<>>]
 HMem0 == << << <<1, 0>>, <<2, 0>>, <<3, 0>> >>, << <<4, 0, 0, 0>> >> >>
 WExp(p) == IF ~WriteIntact(p) THEN <<>> ELSE (CHOOSE o \in SingleOuts(HCfg, HMem0, WReq(p)) : o.k = "ok").mem
-PartName(p) == IF p.kind = "frame" THEN Bases[p.base][p.part].n ELSE "reframed:" \o Inner[p.base][p.part].n
+PartName(p) == IF p.kind = "frame" THEN Bases[p.base][p.part].n ELSE IF p.kind = "inner" THEN "reframed:" \o Inner[p.base][p.part].n
+               ELSE "member:" \o WriteMsg[p.part].n
 EmitPlan(p) == PrintT(ToJson([k |-> "plan", base |-> p.base, part |-> PartName(p), op |-> p.op, b |-> Octets(p), valid |-> Bytes(Bases[p.base]),
-                              intact |-> WriteIntact(p), wexp |-> WExp(p), wreq |-> WReq(p)]))
+                              intact |-> WriteIntact(p), wexp |-> WExp(p), wreq |-> WReq(p), strict |-> NoWriteAtAll(p)]))
 WExpOf(r) == (CHOOSE o \in SingleOuts(HCfg, HMem0, r) : o.k = "ok").mem
 ASSUME PrintT(ToJson([k |-> "cfg", cfg |-> HCfg, mem0 |-> HMem0,
                       wmsgs |-> << [b |-> Bytes(WriteMsg), wexp |-> WExpOf(WReq([base |-> "write"])), wreq |-> WReq([base |-> "write"])],
